@@ -43,23 +43,25 @@ OpenAct == /\ phase = "shape"
            /\ UNCHANGED devs
 
 \* ---- generation: the library's choices are irrelevant for which calls to make ----
-GenChoice(s) == [id |-> "gen" \o ToString(Cardinality(s.m.rels)), name |-> "gen" \o ToString(Cardinality(s.m.parts)) \o ".png"]
+GenChoice(s, e) == [id |-> "gen" \o ToString(Cardinality(s.m.rels)), name |-> "gen" \o ToString(Cardinality(s.m.parts)) \o ".png",
+                    rm |-> IF e.op = "RemoveParagraphAt" THEN e.i + 1 ELSE 0]
 EditGen == /\ phase = "open" /\ Len(hist) < Depth
            /\ \E e \in EditsOf(st) :
-                /\ st' = Apply(st, e, GenChoice(st))
+                /\ st' = Apply(st, e, GenChoice(st, e))
                 /\ hist' = Append(hist, e)
            /\ UNCHANGED <<devs, phase>>
 SpecGen == Init /\ [][AddDev \/ OpenAct \/ EditGen]_vars
 Emit == phase # "open" \/ Len(hist) < Depth \/ PrintT(<<"WZCASE", ToJson(hist)>>)
 
 \* ---- exhaustive exploration of the reference machine over all fresh choices ------
-Choices(e) ==
-  IF NewPart(e, NoChoice) = <<>> THEN {NoChoice}
-  ELSE IF e.op = "AddImage" THEN {[id |-> i, name |-> nm] : i \in IdPool, nm \in NamePool}
-  ELSE {[id |-> i, name |-> ""] : i \in IdPool}
+Choices(s, e) ==
+  IF e.op = "RemoveParagraphAt" THEN {[id |-> "", name |-> "", rm |-> k] : k \in 0..Len(s.paras)}
+  ELSE IF NewPart(e, NoChoice) = <<>> THEN {NoChoice}
+  ELSE IF e.op = "AddImage" THEN {[id |-> i, name |-> nm, rm |-> 0] : i \in IdPool, nm \in NamePool}
+  ELSE {[id |-> i, name |-> "", rm |-> 0] : i \in IdPool}
 
 EditMC == /\ phase = "open" /\ Len(hist) < Depth
-          /\ \E e \in EditsOf(st) : \E ch \in Choices(e) :
+          /\ \E e \in EditsOf(st) : \E ch \in Choices(st, e) :
                /\ ChoiceOK(st, e, ch)
                /\ st' = Apply(st, e, ch)
                /\ hist' = Append(hist, e)
